@@ -1159,7 +1159,7 @@ func Run(r *core.Run) {
 	st := &stats{byCoinc: map[string]int{}, byConfig: map[string]int{}, rejectedWhy: map[string]int{}}
 	seen := map[string]bool{}
 	total := 0
-	walks := r.Pick(400, 1600)
+	walks := r.Pick(400, 800)
 	procs := r.Pick(2, 3)
 	budget := time.Duration(r.Pick(70, 780)) * time.Second
 	maxRounds := r.Pick(6, 40)
